@@ -40,10 +40,10 @@ package redisemu
 //@ ensures [C15] null: (val3.data == nil || istype(val3.data, respNull)) ==> value.data == nil
 //@ ensures [C15] bloberr: istype(val3.data, respBlobError) ==> istype(value.data, respErrorString)
 //@ ensures [C15] aggregate: (istype(val3.data, respMap) || istype(val3.data, respPairs) || istype(val3.data, respArray) || istype(val3.data, respSet) || istype(val3.data, respAttributeMap)) ==> istype(value.data, respArray)
-//@ use resp3ArrayToResp2.resp2 resp3MapToResp2.resp2 resp3PairsToResp2.resp2 resp3SetToResp2.resp2 resp3AttributeMapToResp2.resp2
 
 //@ func resp3ArrayToResp2
 //@ prop C15
+//@ ensures [C15] boxed: resp2(boxvalue(a))
 //@ modifies alloc map cell respValue orderedRespMap
 //@ ensures [C15] len: len(a) == len(val)
 //@ ensures [C15] resp2: all(j, 0, len(a), resp2(a[j]))
@@ -51,6 +51,7 @@ package redisemu
 
 //@ func resp3PairsToResp2
 //@ prop C15
+//@ ensures [C15] boxed: resp2(boxvalue(a))
 //@ modifies alloc map cell respValue orderedRespMap
 //@ ensures [C15] len: len(a) == 2*len(val)
 //@ ensures [C15] resp2: all(j, 0, len(a), resp2(a[j]))
@@ -58,12 +59,14 @@ package redisemu
 
 //@ func resp3SetToResp2
 //@ prop C15
+//@ ensures [C15] boxed: resp2(boxvalue(a))
 //@ modifies alloc map cell respValue orderedRespMap
 //@ ensures [C15] resp2: all(j, 0, len(a), resp2(a[j]))
 //@ loop "for e := range val" invariant all(j, 0, len(a), resp2(a[j]))
 
 //@ func resp3MapToResp2
 //@ prop C15
+//@ ensures [C15] boxed: resp2(boxvalue(a))
 //@ modifies alloc map cell respValue orderedRespMap
 //@ ensures [C15] len: len(a) == 2*len(val.orderedRespMap.order)
 //@ ensures [C15] resp2: all(j, 0, len(a), resp2(a[j]))
@@ -73,6 +76,7 @@ package redisemu
 //@ prop C15
 //@ modifies alloc map cell respValue orderedRespMap
 //@ ensures free resp2: all(j, 0, len(a), resp2(a[j]))
+//@ ensures free boxed: resp2(boxvalue(a))
 //@ note the resp2 clause of the attribute-map converter is assumed: its values pass through a local Go map whose contents are not modelled; no handler builds attribute maps
 
 //@ func orderedMap.mustGet
